@@ -12,7 +12,7 @@ use refimpl as r;
 use refimpl::{Mode, SignOut, MODES};
 use serde_json::json;
 
-const RULE: &str = "for keys (generated; serialise/deserialise round-tripped; structure-aware hostile encodings that deserialisation accepts: arbitrary rho/K/tr, s1/s2 at range ends, t0 unrelated to the key) x message/context shapes x 4 modes x rnd classes: bytes returned by try_sign_with_rng/try_hash_sign_with_rng under a replaying RNG must equal the reference ML-DSA.Sign/HashML-DSA.Sign computed from the sk *bytes*; the RNG log must be exactly one try_fill_bytes(32); the same call repeated on another thread at another stack depth must return the same bytes; 60 ACVP sigGen vectors via _internal_sign. Non-trivial = distinct (key, message, ctx, mode, rnd) whose reference execution had at least one rejection iteration.";
+const RULE: &str = "for keys (generated; serialise/deserialise round-tripped; structure-aware hostile encodings that deserialisation accepts: arbitrary rho/K/tr, s1/s2 at range ends, t0 unrelated to the key; plus a rejection-heavy class with t0 partly at the range extremes that needs tens to thousands of rejection iterations so that the 16-bit ExpandMask counter crosses its byte boundaries) x message/context shapes x 4 modes x rnd classes: bytes returned by try_sign_with_rng/try_hash_sign_with_rng under a replaying RNG must equal the reference ML-DSA.Sign/HashML-DSA.Sign computed from the sk *bytes*; the RNG log must be exactly one try_fill_bytes(32); the same call repeated on another thread at another stack depth must return the same bytes; 60 ACVP sigGen vectors via _internal_sign. Non-trivial = distinct (key, message, ctx, mode, rnd) whose reference execution had at least one rejection iteration.";
 
 pub fn run(ctx: &Ctx) -> StageOut {
     let mut acc = Acc::new();
@@ -110,6 +110,8 @@ pub fn check_sign<S: PS>(
     }
     acc.count(&format!("match_{class}"), 1);
     acc.maxi("max_kappa_iterations", evs.sign_iterations as i64);
+    let bucket = match evs.sign_iterations { 0..=1 => "1", 2..=9 => "2-9", 10..=36 => "10-36", 37..=99 => "37-99", 100..=999 => "100-999", _ => "1000+" };
+    acc.count(&format!("signatures_with_iterations_{bucket}"), 1);
     acc.count("rejections_z", evs.rej_z);
     acc.count("rejections_r0", evs.rej_r0);
     acc.count("rejections_ct0", evs.rej_ct0);
@@ -179,7 +181,34 @@ fn run_set<S: PS>(ctx: &Ctx) -> Acc {
         }
         acc
     });
-    Acc::merge_all(accs)
+    let mut acc = Acc::merge_all(accs);
+    // ---- rejection-heavy signing: accepted keys whose t0 is (partly) at the range extremes need tens
+    // to thousands of rejection iterations, so the ExpandMask counter kappa crosses its byte
+    // boundaries and every rejection branch is taken many times before a signature comes out
+    let pats: &[T0Pat] = match p.set {
+        44 => &[T0Pat::PartialExtremes(70), T0Pat::PartialExtremes(85)],
+        65 => &[T0Pat::RandomExtremes, T0Pat::PartialExtremes(85)],
+        _ => &[T0Pat::PartialExtremes(70), T0Pat::PartialExtremes(85)],
+    };
+    let n_heavy = ctx.budget(96, 2400) as usize;
+    let accs = par_map(n_heavy, |i| {
+        let mut acc = Acc::new();
+        let mut g = Prng::derive(ctx.seed, &format!("c03-heavy-{}", p.name), i as u64);
+        let sk_bytes = gen::hostile_sk(&mut g, p, SPat::Random, pats[i % pats.len()]);
+        let Ok(Ok(sk_obj)) = guarded(|| S::sk_from(&sk_bytes)) else {
+            acc.violation(&format!("C03|sk-rejected|{}|rejection-heavy", p.name), "in-range private key rejected (see C10)".into(), json!({"kind":"sk-roundtrip","set":S::SET,"sk":hex(&sk_bytes)}));
+            return acc;
+        };
+        let m = g.bytes(1 + i % 40);
+        let cx = g.bytes(i % 4);
+        let rnd = g.arr32();
+        check_sign::<S>(&mut acc, "rejection-heavy", &sk_obj, &sk_bytes, &m, &cx, MODES[i % 4], &rnd, false);
+        acc
+    });
+    for a in accs {
+        acc.merge(a);
+    }
+    acc
 }
 
 fn acvp_siggen(ctx: &Ctx, acc: &mut Acc) {
